@@ -11,6 +11,8 @@ CONSTANTS
   Addrs = {"4096"}
   Grows = {1, 2, 3}
   Lates = FALSE
+  AddAligns = {}
+  OnlyTiled = FALSE
   NopKinds = {"1", "4"}
   VariantSet = "align"
   Rotate = 2
